@@ -20,11 +20,11 @@ def real_side(case):
     finite = case['finite']
     if case['kind'] == 'W':
         A = cl.W_to_mpo(case, case['WA'])
-        B = cl.W_to_mpo(case, case['WB']) if 'WB' in case else None
+        B = cl.W_to_mpo(case, case['WB'], 'B') if 'WB' in case else None
         dims = [case['d']] * case['L']
     else:
         A = cl.terms_to_mpo(case, case['tlA'])
-        B = cl.terms_to_mpo(case, case['tlB']) if 'tlB' in case else None
+        B = cl.terms_to_mpo(case, case['tlB'], 'B') if 'tlB' in case else None
         dims = [s.dim for s in A.sites]
     window = 1
     if not finite:
@@ -36,14 +36,21 @@ def markers_everywhere(H):
     return all(x is not None for x in H.IdL) and all(x is not None for x in H.IdR)
 
 
+def can_add(A, B):
+    """`A + B` is defined for MPOs in sum form: infinite MPOs need IdL and IdR on every bond, finite ones only IdL on the
+    first and IdR on the last bond (inner markers may be missing on any bond, e.g. `insert_all_id=False`)"""
+    if B is None:
+        return False
+    if A.finite:
+        return all(H.IdL[0] is not None and H.IdR[-1] is not None for H in (A, B))
+    return markers_everywhere(A) and markers_everywhere(B)
+
+
 def lean_request(case, real):
     A, B = real['A'], real['B']
     req = {'k': 'mpo', 'd': real['dims'], 'finite': case['finite'], 'window': real['window'], 'A': cl.mpo_json(A)}
-    if B is not None and markers_everywhere(A) and markers_everywhere(B):
+    if B is not None and (case['finite'] or can_add(A, B)):
         req['B'] = cl.mpo_json(B)
-    elif B is not None and case['finite']:
-        req['B'] = cl.mpo_json(B)
-        req['no_add'] = True
     if 'plus_identity' in case and markers_everywhere(A):
         p = case['plus_identity']
         tb = Fraction(p['tb'])
@@ -126,17 +133,31 @@ def check_case(case, lean_out, real=None, use_model=True):
         e = attempt('exact_diag', lambda: cl.ed_dense(A))
         if e is not None and oc.maxdiff(e, dA) > tol:
             prop('exact_diag.from_H_mpo.mismatch', f'ExactDiag.from_H_mpo differs from the window contraction by {oc.maxdiff(e, dA):.2e}')
-    both_markers = B is not None and markers_everywhere(A) and markers_everywhere(B)
 
     # ---- sum ---------------------------------------------------------------------------------
     S = None
-    if both_markers:
+    if can_add(A, B):
         S = attempt('add', lambda: A + B)
         if S is not None:
             d = oc.maxdiff(dense(S), dA + dB)
             facts['add'] = True
+            if not (markers_everywhere(A) and markers_everywhere(B)):
+                facts['add_partial_markers'] = True
             if d > tol:
                 prop('add.dense-mismatch', f'(A+B) differs from dense A + dense B by {d:.2e}')
+        S2 = attempt('add', lambda: B + A)
+        if S2 is not None:
+            d = oc.maxdiff(dense(S2), dA + dB)
+            if d > tol:
+                prop('add.dense-mismatch', f'(B+A) differs from dense A + dense B by {d:.2e}')
+        if S is not None and case['kind'] == 'terms' and finite:
+            # the sum against the MPO built directly from the merged term list, by the library's own decision procedure
+            def direct():
+                merged = dict(case, tlA=list(case['tlA']) + list(case['tlB']))
+                return bool(S.is_equal(cl.terms_to_mpo(merged, merged['tlA'])))
+            eqd = attempt('is_equal', direct)
+            if eqd is False and float(np.max(np.abs(dA + dB))) > NONZERO:
+                prop('add.not-equal-to-mpo-of-merged-terms', '(A+B).is_equal(MPO of the merged term list) is False')
     # ---- dagger, hermiticity -------------------------------------------------------------------
     Ad = attempt('dagger', lambda: A.dagger())
     if Ad is not None:
@@ -390,6 +411,8 @@ def terms_checks(case, real, dA, fails, facts, attempt, prop):
                 prop('to_TermList.roundtrip-mismatch', f'from_term_list(to_TermList(H)) differs from H by {oc.maxdiff(rt, dA):.2e}')
     if not finite:
         return
+    # the propagators need IdL and IdR on every bond (documented): use the twin with all markers for them
+    A_U = A if markers_everywhere(A) else cl.terms_to_mpo(dict(case, insert_all_id=[True, True]), case['tlA'])
     # expectation value and variance on a random state
     psi, vec = random_state(A.sites, case['seed'])
     if psi is None:
@@ -453,7 +476,7 @@ def terms_checks(case, real, dA, fails, facts, attempt, prop):
                     prop(f'apply.{method}.exact-mismatch', f'no truncation, |H psi - result|^2/|H psi|^2 = {delta2:.2e}')
     if A.L >= 3 and max(psi.chi) > 2 and nrm > 1e-8:
         hn = max(1.0, float(np.linalg.norm(dA, 2)))
-        Unear = attempt('make_U_II', lambda: A.make_U_II(0.05 / hn))
+        Unear = attempt('make_U_II', lambda: A_U.make_U_II(0.05 / hn))
         if Unear is not None:
             dU = cl.mpo_dense(Unear)
             Uv = dU @ vec
@@ -466,12 +489,27 @@ def terms_checks(case, real, dA, fails, facts, attempt, prop):
                 facts[f'apply.{method}.truncated'] = True
                 delta2 = float(np.sum(np.abs(res - Uv) ** 2)) / n2 ** 2
                 eps = float(abs(getattr(err, 'eps', 0.0)))
-                # SVD / zip-up report the accumulated discarded weight; the variational method reports the largest
-                # truncation of its last sweep, i.e. a per-bond number (L-1 bonds)
-                factor = 4.0 if method != 'variational' else 4.0 * (A.L - 1)
-                if delta2 > factor * eps + 1e-10:
-                    prop(f'apply.{method}.error-above-reported',
-                         f'chi_max=2: |U psi - result|^2/|U psi|^2 = {delta2:.3e}, reported eps = {eps:.3e}')
+                if method != 'variational':
+                    # SVD / zip-up report the accumulated discarded weight
+                    if delta2 > 4.0 * eps + 1e-10:
+                        prop(f'apply.{method}.error-above-reported',
+                             f'chi_max=2: |U psi - result|^2/|U psi|^2 = {delta2:.3e}, reported eps = {eps:.3e}')
+                else:
+                    # the variational method reports the truncation of one two-site update inside the already truncated
+                    # bases (documented: "maximal truncation error of a two-site wave function"), which says nothing about
+                    # the total error.  Its promise is "optimally close": the best chi_max=2 state has an error between
+                    # max_b w_b and sum_b w_b (w_b = discarded Schmidt weight of U|psi> on bond b, sequential truncation)
+                    w = []
+                    for b in range(1, len(state_dims)):
+                        sv = np.linalg.svd(Uv.reshape(int(np.prod(state_dims[:b])), -1), compute_uv=False)
+                        w.append(float(np.sum(sv[2:] ** 2)) / n2 ** 2)
+                    if delta2 > 2.0 * sum(w) + 1e-10:
+                        prop('apply.variational.far-from-optimal',
+                             f'chi_max=2: |U psi - result|^2/|U psi|^2 = {delta2:.3e}, but a state with error <= '
+                             f'{sum(w):.3e} exists (discarded Schmidt weights per bond {w})')
+                    if delta2 < max(w) * (1 - 1e-8) - 1e-10:
+                        prop('apply.variational.better-than-possible',
+                             f'chi_max=2: error {delta2:.3e} below the bound {max(w):.3e} of any chi=2 state: result has chi {last_chi[0]}')
     # propagators: error ratio at t, t/2, t/4 (test level)
     if case.get('herm') and oc.herm_defect(dA) <= tol and A.L >= 2:
         import scipy.linalg
@@ -481,7 +519,7 @@ def terms_checks(case, real, dA, fails, facts, attempt, prop):
             hn = max(1.0, float(np.linalg.norm(dA, 2)))
             for t in (0.1 / hn, 0.05 / hn, 0.025 / hn):
                 def mk():
-                    U = A.make_U_I(-1j * t) if kind == 'I' else A.make_U_II(-1j * t)
+                    U = A_U.make_U_I(-1j * t) if kind == 'I' else A_U.make_U_II(-1j * t)
                     return cl.mpo_dense(U)
                 Ud = attempt(f'make_U_{kind}', mk)
                 if Ud is None:
